@@ -159,6 +159,10 @@ def run(ctx) -> None:
         ("C12.R5-killed-cancelled-excluded", "restartHookOn cannot list Killed/Cancelled (schema) and the instability guard excludes them"),
         ("C12.R6-refusals", "ComponentState.restart refuses after shutdown; RepeatingEngine.restart launches at most once and only for ResourceExhausted"),
         ("C12.R7-refusal-final-state", "a refused restart leads to TransitionComponentToFinalState in postMortemCheck"),
+        ("C12.R11-restart-for-the-reason-that-was-filtered", "the reason the controller hands to component.restart() (and to _unstableSystemRestart) in the "
+                                                             "post-mortem path is the exit reason its guards tested - the parameter or the engine's "
+                                                             "exitReason() - never a constant of the exit-reason table: the engine filters restartHookOn "
+                                                             "on the reason it is GIVEN, so a substituted reason passes a filter the real one would not"),
         ("C12.R10-hook-outcomes-contained", "the call of the restart hook is enclosed by handlers for Exception and for SystemExit (a hook calling "
                                             "sys.exit()); each of them records a refusing restart context and none re-raises, so every hook "
                                             "outcome - raising included - comes back to the controller as a restart code"),
@@ -522,6 +526,43 @@ def run(ctx) -> None:
                 ok = q == "Controller._restartComponent"
                 ctx.ob("C12.R4-controller-guards", c, ok, "_unstableSystemRestart is reached only through the guarded site" if ok else
                        "_unstableSystemRestart is called from %s, outside the guards of _restartComponent" % q)
+
+    # R11: the reason handed on is the reason that was tested
+    n11 = 0
+    for q in ("Controller._restartComponent", "Controller._unstableSystemRestart"):
+        f = ctl.func(q)
+        params = {a.arg for a in f.args.args + f.args.kwonlyargs}
+
+        def is_the_reason(e: ast.AST, seen: frozenset = frozenset()) -> bool:
+            if isinstance(e, ast.Call) and last_attr(e) == "exitReason" and not e.args:
+                return True
+            if isinstance(e, ast.IfExp):
+                return is_the_reason(e.body, seen) and is_the_reason(e.orelse, seen)
+            if isinstance(e, ast.BoolOp) and isinstance(e.op, ast.Or):
+                return all(is_the_reason(v, seen) for v in e.values)
+            if isinstance(e, ast.Name):
+                vals = match.assigned_value(f, e.id)
+                if not vals or e.id in seen:
+                    return e.id in params       # the reason the caller passed in (a self-reference inside its own re-definition)
+                return all(is_the_reason(v, seen | {e.id}) for v in vals)
+            return False
+        for c in source.calls_in(f):
+            if last_attr(c) not in ("restart", "_unstableSystemRestart"):
+                continue
+            kws = [k.value for k in c.keywords if k.arg in ("reason", "exitReason")]
+            if not kws and last_attr(c) == "restart" and c.args:
+                kws = [c.args[0]]
+            if not kws and last_attr(c) == "_unstableSystemRestart" and len(c.args) >= 2:
+                kws = [c.args[1]]
+            n11 += 1
+            ok = bool(kws) and all(is_the_reason(k) for k in kws)
+            ctx.ob("C12.R11-restart-for-the-reason-that-was-filtered", c, ok,
+                   "the restart is requested for the exit reason the guards tested" if ok else
+                   "%s requests the restart for %s instead of the task's exit reason: the engine applies restartHookOn to the reason it is "
+                   "given, so a task that exited for a reason the component does not list (KnownIssue) is started again as if it had been "
+                   "ResourceExhausted" % (q.split(".")[-1], short(kws[0], 60) if kws else "no reason at all"),
+                   construct="%s: restart(reason=<the exit reason>)" % q.split(".")[-1])
+    ctx.floor("C12.R11-restart-for-the-reason-that-was-filtered", n11, 4, "restart requests in _restartComponent / _unstableSystemRestart")
 
     # R5 schema
     tfc = fir.func("FlowIR.type_flowir_component")
